@@ -50,15 +50,21 @@ func fastaWrite(p *core.Prog, r *core.Report, info *types.Info) {
 		}
 	}
 	key := "seqio.Fasta.WriteTo"
-	if sp == nil {
+	var args []ast.Expr
+	format := ""
+	if sp != nil {
+		args = sp.Args
+		if core.IsCallTo(info, sp, "fmt.Fprintf") {
+			args = args[1:]
+		}
+		format, _ = core.ConstString(info, args[0])
+	} else if f, ops, at, ok := builderTemplate(info, fd.Body); ok {
+		// the same record written piece by piece into one strings.Builder (top-level statements only)
+		format, args, sp = f, append([]ast.Expr{nil}, ops...), at
+	} else {
 		r.Und("FASTA-WRITE", key+"|format", p.Pos(fd.Pos()), "no Sprintf/Fprintf builds the record")
 		return
 	}
-	args := sp.Args
-	if core.IsCallTo(info, sp, "fmt.Fprintf") {
-		args = args[1:]
-	}
-	format, _ := core.ConstString(info, args[0])
 	if format != ">%s\n%s\n" || len(args) != 3 {
 		r.Bad("FASTA-WRITE", key+"|format", p.Pos(sp.Pos()), fmt.Sprintf("the record format is %q with %d operands, not \">%%s\\n%%s\\n\" of (description, residues): the reader's framing ('>' line, body up to the next '>') no longer matches", format, len(args)-1))
 	} else {
@@ -439,4 +445,81 @@ func fastaDesc(p *core.Prog, r *core.Report, info *types.Info) {
 			r.Bad("FASTA-DESC", key, p.Pos(ret.Pos()), fmt.Sprintf("the description format %q is not `Version[:region] Definition`", format))
 		}
 	}
+}
+
+// builderTemplate reads a run of top-level WriteByte/WriteRune/WriteString calls
+// on one local strings.Builder (or bytes.Buffer) as the format they spell out:
+// constants verbatim, every other operand as %s. ok is false when the builder
+// is written anywhere but in top-level statements of the body (a loop or a
+// branch makes the output depend on more than the operands).
+func builderTemplate(info *types.Info, body *ast.BlockStmt) (format string, ops []ast.Expr, at *ast.CallExpr, ok bool) {
+	var b types.Object
+	top := map[*ast.CallExpr]bool{}
+	for _, st := range body.List {
+		es, isExpr := st.(*ast.ExprStmt)
+		if !isExpr {
+			continue
+		}
+		c, isCall := es.X.(*ast.CallExpr)
+		if !isCall {
+			continue
+		}
+		sel, isSel := ast.Unparen(c.Fun).(*ast.SelectorExpr)
+		if !isSel || len(c.Args) != 1 {
+			continue
+		}
+		switch sel.Sel.Name {
+		case "WriteByte", "WriteRune", "WriteString":
+		default:
+			continue
+		}
+		o := core.ObjOf(info, sel.X)
+		if o == nil {
+			continue
+		}
+		if nt := core.NamedOf(o.Type()); nt != "strings.Builder" && nt != "bytes.Buffer" {
+			continue
+		}
+		if b == nil {
+			b = o
+		}
+		if o != b {
+			return "", nil, nil, false
+		}
+		top[c] = true
+		if at == nil {
+			at = c
+		}
+		switch sel.Sel.Name {
+		case "WriteString":
+			if s, isConst := core.ConstString(info, c.Args[0]); isConst {
+				format += strings.ReplaceAll(s, "%", "%%")
+			} else {
+				format += "%s"
+				ops = append(ops, c.Args[0])
+			}
+		default:
+			v, isConst := core.ConstInt(info, c.Args[0])
+			if !isConst {
+				return "", nil, nil, false
+			}
+			format += strings.ReplaceAll(string(rune(v)), "%", "%%")
+		}
+	}
+	if b == nil {
+		return "", nil, nil, false
+	}
+	// no other write to the builder anywhere
+	clean := true
+	for _, c := range core.Calls(body) {
+		if sel, isSel := ast.Unparen(c.Fun).(*ast.SelectorExpr); isSel && core.ObjOf(info, sel.X) == b && strings.HasPrefix(sel.Sel.Name, "Write") && !top[c] {
+			clean = false
+		}
+		if core.IsCallTo(info, c, "fmt.Fprint", "fmt.Fprintln") && len(c.Args) > 0 {
+			if u, ok := ast.Unparen(c.Args[0]).(*ast.UnaryExpr); ok && core.ObjOf(info, u.X) == b {
+				clean = false
+			}
+		}
+	}
+	return format, ops, at, clean
 }
